@@ -47,6 +47,12 @@ UNITS = {
         'complete': True, 'timeout': 600,
         'title': 'toml::Value serializer and visitor integer conversions: every u64 value',
     },
+    'K6d': {
+        'engine': 'kani', 'crate': 'toml_edit',
+        'harnesses': ['k6_de_narrow_u8', 'k6_de_narrow_i32', 'k6_de_narrow_u64'],
+        'complete': True, 'timeout': 600,
+        'title': 'toml_edit::de: a TOML integer deserialized into u8 / i32 / u64: exact or an error, every i64',
+    },
     'K11': {
         'engine': 'kani', 'crate': 'toml_edit', 'harnesses': ['k11_span_bridge'], 'complete': True,
         'timeout': 600,
@@ -72,6 +78,11 @@ UNITS = {
         'engine': 'verus', 'complete': True,
         'title': 'document grammar time_secfrac closure: any digit string -> first nine digits right-padded (truncation), unbounded',
         'witness': ['witness-k3'], 'replay': 'replay-k3',
+    },
+    'V8': {
+        'engine': 'verus', 'complete': True,
+        'title': 'integer literal radix-conversion closures (extracted from fn integer): Ok iff the value fits i64, value exact (unbounded, under assumed from_str_radix contracts)',
+        'witness': ['witness-k10'], 'replay': 'replay-k10',
     },
     # ---------------------------------------------------------------- Kani, complete per fixed input width
     'K2': {
@@ -130,10 +141,10 @@ UNITS = {
 # property -> tier -> unit list
 PLAN = {
     'C10': {'quick': ['V1', 'K1'], 'thorough': ['V1', 'K1']},
-    'C04': {'quick': ['V1', 'V3', 'V4', 'V5', 'V6', 'V7', 'K1', 'K12'], 'thorough': ['V1', 'V3', 'V4', 'V5', 'V6', 'V7', 'K1', 'K12', 'K8t', 'K3t']},
-    'C11': {'quick': ['K7', 'K6e', 'K6t'], 'thorough': ['K7', 'K6e', 'K6t']},
-    'C01': {'quick': ['K1', 'K7', 'V4', 'K2'], 'thorough': ['K1', 'K7', 'V4', 'K2', 'K2y', 'K5']},
-    'C02': {'quick': ['K2', 'V5', 'V7'], 'thorough': ['K2', 'K2y', 'V5', 'V7', 'K5']},
+    'C04': {'quick': ['V1', 'V3', 'V4', 'V5', 'V6', 'V7', 'K1', 'K12'], 'thorough': ['V1', 'V3', 'V4', 'V5', 'V6', 'V7', 'K1', 'K12', 'K8t', 'K3t', 'K5']},
+    'C11': {'quick': ['K7', 'K6e', 'K6t', 'K6d', 'V8'], 'thorough': ['K7', 'K6e', 'K6t', 'K6d', 'V8']},
+    'C01': {'quick': ['K1', 'K7', 'V4', 'V8', 'K2'], 'thorough': ['K1', 'K7', 'V4', 'V8', 'K2', 'K2y', 'K5']},
+    'C02': {'quick': ['K2', 'V5', 'V7', 'V8'], 'thorough': ['K2', 'K2y', 'V5', 'V7', 'V8', 'K5']},
     'C05': {'quick': ['V3', 'K12'], 'thorough': ['V3', 'K12']},
     'C12': {'quick': ['V4', 'V5', 'V6', 'V7', 'K2', 'K3q'], 'thorough': ['V4', 'V5', 'V6', 'V7', 'K2', 'K2y', 'K3q', 'K3t', 'K3a']},
     'C14': {'quick': ['K11'], 'thorough': ['K11']},
